@@ -239,6 +239,32 @@ Theorem C13_refuted_swapped_commit_order :
 Proof. vm_compute. split; reflexivity. Qed.
 Print Assumptions C13_refuted_swapped_commit_order.
 
+(** Contexts served to readers are functions of the manager's table at that moment: whatever a
+    request does with the context it was given (a JSON-LD page adds its fixed prefixes to its own copy),
+    no other reader sees it; and there is no stale context - once a namespace has its prefix, every
+    context of a dataset that declares it shows it under that prefix, for every reachable state. *)
+Theorem C13_context_function_of_table : forall a w exps,
+  ns_step a NCtxAll w = (w, OCtx (p2e (mem (nst w))))
+  /\ ns_step a (NDsCtx exps) w = (w, OCtx (ctx_of exps (nst w)))
+  /\ ns_step a NJsonLD w = (w, ONone).
+Proof. intros. repeat split. Qed.
+Print Assumptions C13_context_function_of_table.
+
+Theorem C13_dataset_context_fresh : forall a ops exps p e,
+  let st := nst (fst (ns_run a ops nsw_init)) in
+  slookup p (p2e (mem st)) = Some e -> In e exps -> has_mapping (ctx_of exps st) p e = true.
+Proof.
+  intros a ops exps p e st Hp Hin. apply dsctx_fresh; try assumption.
+  apply (ns_run_inv a ops nsw_init nsw_inv_init).
+Qed.
+Print Assumptions C13_dataset_context_fresh.
+
+Example C13_dsctx_nonvacuous :
+  verdict v_fixed wit_dsctx = true
+  /\ nth 0 (snd (wrun v_fixed L_go wit_dsctx (w_setup v_fixed L_go dss_ab))) HOUnit = HONs (OCtx [([], x_pub)])
+  /\ nth 4 (snd (wrun v_fixed L_go wit_dsctx (w_setup v_fixed L_go dss_ab))) HOUnit = HONs (OCtx [(ns_name 3, x_pub)]).
+Proof. vm_compute. repeat split; reflexivity. Qed.
+
 (** the hypothesis of C13_agree_implies_spec is met by the witness histories and is needed: an
     assertion after the last dump is judged against tables that cannot contain it *)
 Example C13_ends_dump_nonvacuous :
